@@ -633,7 +633,7 @@ func (server *SugarDB) evictKeysWithExpiredTTL(ctx context.Context) error {
 	// whichever one is smaller.
 	sampleSize := int(server.config.EvictionSample)
 	if len(server.keysWithExpiry.keys[database]) < sampleSize {
-		sampleSize = len(server.keysWithExpiry.keys)
+		sampleSize = len(server.keysWithExpiry.keys[database])
 	}
 	keys := make([]string, sampleSize)
 
@@ -645,7 +645,7 @@ func (server *SugarDB) evictKeysWithExpiredTTL(ctx context.Context) error {
 	for i := 0; i < len(keys); i++ {
 		for {
 			// Retry retrieval of a random key until we find a key that is not already in the list of sampled keys.
-			idx = rand.Intn(len(server.keysWithExpiry.keys))
+			idx = rand.Intn(len(server.keysWithExpiry.keys[database]))
 			key = server.keysWithExpiry.keys[database][idx]
 			if !slices.Contains(keys, key) {
 				keys[i] = key
@@ -659,6 +659,11 @@ func (server *SugarDB) evictKeysWithExpiredTTL(ctx context.Context) error {
 	server.storeLock.Lock()
 	defer server.storeLock.Unlock()
 	for _, k := range keys {
+		// Only keys whose deadline has passed are removed.
+		entry, ok := server.store[database][k]
+		if !ok || entry.ExpireAt == (time.Time{}) || !entry.ExpireAt.Before(server.clock.Now()) {
+			continue
+		}
 		// Delete the expired key
 		deletedCount += 1
 		if !server.isInCluster() {
